@@ -475,7 +475,9 @@ func cleanupFilePos(tfile *token.File, cl engine.Changelog, comments []*ast.Comm
 			continue
 		}
 
-		for i := tfile.Line(dr.Start); i < tfile.Line(dr.End); i++ {
+		// Lines as they are in the file, not as "//line" directives
+		// renumber them: MergeLine counts physical lines.
+		for i := tfile.PositionFor(dr.Start, false).Line; i < tfile.PositionFor(dr.End, false).Line; i++ {
 			if i > 0 {
 				linesToDelete[i] = struct{}{}
 			}
